@@ -296,7 +296,7 @@ def h_daemon_release(age: int, backoff: int, timeout: int, has_backoff: bool) ->
 
 
 # ---------------------------------------------------------------------------------------- H3 history
-def run_history(steps, conflict_at, fail_first, ties=()):
+def run_history(steps, conflict_at, fail_first, ties=(), fk=0):
     """steps: list over {0: delete request, 1: label off, 2: label on, 3: noop event, 4: restart}."""
     w = World(base_body(labels={'run': 'yes'}, finalizers=['a/fin']))
     calls = w.calls
@@ -319,7 +319,12 @@ def run_history(steps, conflict_at, fail_first, ties=()):
         # a foreign controller appends its finalizer right before kopf's conflict_at-th request lands
         if idx == conflict_at and not foreign['done'] and server.obj is not None:
             foreign['done'] = True
-            server.write(lambda o: o['metadata'].setdefault('finalizers', []).append('z/fin'))
+            if fk == 0:
+                server.write(lambda o: o['metadata'].setdefault('finalizers', []).append('z/fin'))
+            elif fk == 1:
+                server.write(lambda o: o['metadata'].setdefault('finalizers', []).insert(0, 'y/fin'))      # positions shift
+            else:
+                server.write(lambda o: o['metadata']['finalizers'].remove('a/fin'))                        # its owner lets go
     w.server.pre_request = hook
 
     async def settle():
@@ -358,18 +363,18 @@ def run_history(steps, conflict_at, fail_first, ties=()):
     return w, snaps
 
 
-def h_history(s0: int, s1: int, s2: int, conflict_at: int, fail_first: bool) -> bool:
+def h_history(s0: int, s1: int, s2: int, conflict_at: int, fail_first: bool, fk: int) -> bool:
     """
     pre: 0 <= s0 <= 4 and 0 <= s1 <= 4 and 0 <= s2 <= 4
-    pre: 0 <= conflict_at <= 8
+    pre: 0 <= conflict_at <= 8 and 0 <= fk <= 2
     post: _ == True
     """
     vkopf.begin_path()
     n = vkopf.cell('n', 2)
-    s0, s1 = vkopf.pin('s0', s0), vkopf.pin('s1', s1)
+    s0, s1, fk = vkopf.pin('s0', s0), vkopf.pin('s1', s1), vkopf.pin('fk', fk)
     steps = [s0, s1, s2][:n]
     try:
-        w, snaps = run_history(steps, conflict_at, fail_first)
+        w, snaps = run_history(steps, conflict_at, fail_first, fk=fk)
     except (Deadlock, Diverged, Livelock):
         return vkopf.verdict(False)
     ok = True
@@ -382,7 +387,7 @@ def h_history(s0: int, s1: int, s2: int, conflict_at: int, fail_first: bool) -> 
         match = obj['metadata'].get('labels', {}).get('run') == 'yes'
         # foreign finalizers: exactly the foreign writers', in their order
         foreign = [f for f in fins if f != FIN]
-        if foreign not in (['a/fin'], ['a/fin', 'z/fin']):
+        if foreign not in (['a/fin'], [['a/fin', 'z/fin'], ['y/fin', 'a/fin'], []][fk]):
             ok = False
         if fins.count(FIN) > 1:
             ok = False
@@ -422,8 +427,12 @@ def obligations():
     obs += split(Ob('h_step', {}, tiers=('thorough',), timeout=1500, path_timeout=200), deleting=B, kind=[0, 1, 2], with_daemon=B)
     obs.append(Ob('h_daemon_release', {}, timeout=900, path_timeout=200, twins=['abandoned_released', 'still_held']))
     obs.append(Ob('h_two_daemons', {}, timeout=900, path_timeout=200, twins=['some_still_running', 'all_exited']))
-    obs += split(Ob('h_history', {'n': 1}, timeout=900, path_timeout=300, twins=['conflict']), s0=[0, 1, 3])
-    obs.append(Ob('h_history', {'n': 2, 'pin': {'s0': 2, 's1': 0}}, tiers=('quick',), timeout=900, path_timeout=300))
-    obs += split(Ob('h_history', {'n': 2}, timeout=3000, path_timeout=300, tiers=('thorough',), twins=['conflict', 'released']),
-                 s0=[0, 1, 2, 3, 4], s1=[0, 1, 2, 3, 4])
+    # (the foreign write that slips in before one of the operator's requests: appends, inserts in front, or removes a finalizer)
+    for (s0, fk) in ((0, 0), (1, 1), (3, 2), (0, 1), (0, 2)):
+        obs.append(Ob('h_history', {'n': 1, 'pin': {'s0': s0, 'fk': fk}}, tiers=('quick',), timeout=900, path_timeout=300))
+    obs.append(Ob('h_history', {'n': 1}, tiers=('quick', 'thorough'), timeout=600, path_timeout=300, twins=['conflict'], main=False))
+    obs.append(Ob('h_history', {'n': 2, 'pin': {'s0': 2, 's1': 0, 'fk': 1}}, tiers=('quick',), timeout=900, path_timeout=300))
+    obs += split(Ob('h_history', {'n': 1}, timeout=900, path_timeout=300, tiers=('thorough',)), s0=[0, 1, 2, 3, 4], fk=[0, 1, 2])
+    obs += split(Ob('h_history', {'n': 2}, timeout=1800, path_timeout=300, tiers=('thorough',), twins=['conflict', 'released']),
+                 s0=[0, 1, 2, 3, 4], s1=[0, 1, 3], fk=[0, 1, 2])
     return obs
